@@ -18,6 +18,21 @@ package checks
 //   INCONCLUSIVE  work is still pending at the deadline D.
 //
 // Sleeps are used only to pace observations (waiting, not judging).
+//
+// Interrupted syncs.  Taking B down *between* operations never leaves B with half a DAG: either the
+// push reached B and was synced completely, or it did not reach B at all.  The receiver's syncDAG
+// however stores the pushed head block first and fetches the blocks it links to afterwards, so a
+// sync that is cut short (link fetch failure, receiver fault, restart in the middle) leaves "head
+// present, linked blocks missing" — a state in which "I have this head already" does not mean "I
+// have its DAG".  Such states are produced deterministically, not by timing: B's database and peer
+// run on a store wrapper (core.MatchFault) that fails the k-th direct write (or read) on /db/blocks
+// of a window opened by the schedule (`arm`), i.e. the 2nd, 3rd ... block of the next sync;
+// `awaitfault` waits for the failed push and records whether B really is in the half-synced state
+// (observed on the raw store: a head of A whose block B has while B lacks a block of its closure);
+// the window is closed (`disarm`) — optionally after a failed retry (sticky fault) or with a
+// restart of B's peer / of the whole node on its file store in between — and the same clock-free
+// oracle decides: A's retry must re-deliver the commit.  The control of such a schedule is the
+// same schedule without the fault window.
 
 import (
 	"context"
@@ -33,6 +48,7 @@ import (
 	"sync"
 	"time"
 
+	"github.com/ipfs/go-cid"
 	"github.com/sourcenetwork/immutable"
 	"github.com/sourcenetwork/lens/host-go/config/model"
 
@@ -71,10 +87,15 @@ func c15DeadlineNow() time.Duration {
 }
 
 type c15Step struct {
-	Op   string         `json:"op"` // create | update | delete | down | up | patch | settle | waitretry
+	Op   string         `json:"op"` // create | update | delete | down | up | patch | settle | waitretry | arm | awaitfault | disarm
 	Doc  int            `json:"doc,omitempty"`
 	Vals map[string]any `json:"vals,omitempty"`
 	Mode string         `json:"mode,omitempty"` // down: peer|node   patch: both|A|B
+	// arm: the K-th direct (non-transactional) operation Fault ("set" | "get") on B's /db/blocks
+	// fails from now on; Sticky: every later one too, until disarm
+	Fault  string `json:"fault,omitempty"`
+	K      int    `json:"k,omitempty"`
+	Sticky bool   `json:"sticky,omitempty"`
 }
 
 type c15Scenario struct {
@@ -100,18 +121,20 @@ func (s c15Scenario) canon() string {
 			sb.WriteString(strings.Join(ks, ","))
 		case "down", "patch", "up":
 			sb.WriteString(":" + st.Mode)
+		case "arm":
+			fmt.Fprintf(&sb, ":%s%d%v", st.Fault, st.K, st.Sticky)
 		}
 		sb.WriteString(";")
 	}
 	return sb.String()
 }
 
-// control removes the outage from a schedule.
+// control removes the outage and the fault windows from a schedule.
 func (s c15Scenario) control() c15Scenario {
 	c := c15Scenario{Name: s.Name + "/control", Config: s.Config, BStore: s.BStore}
 	for _, st := range s.Steps {
 		switch st.Op {
-		case "down", "up", "waitretry":
+		case "down", "up", "waitretry", "arm", "awaitfault", "disarm":
 			continue
 		}
 		c.Steps = append(c.Steps, st)
@@ -128,6 +151,11 @@ func patch(who string) c15Step              { return c15Step{Op: "patch", Mode: 
 func settle() c15Step                       { return c15Step{Op: "settle"} }
 func waitretry() c15Step                    { return c15Step{Op: "waitretry"} }
 func pause() c15Step                        { return c15Step{Op: "pause"} }
+func arm(fault string, k int, sticky bool) c15Step {
+	return c15Step{Op: "arm", Fault: fault, K: k, Sticky: sticky}
+}
+func awaitfault() c15Step { return c15Step{Op: "awaitfault"} }
+func disarm() c15Step     { return c15Step{Op: "disarm"} }
 
 type M = map[string]any
 
@@ -164,6 +192,145 @@ func c15Anchors() []c15Scenario {
 		{Name: "anchor/pubsub-only-outage", Config: "pubsub", BStore: "badger", Steps: []c15Step{
 			cr(0, M{"name": "h0", "n": 1}), cr(1, M{"name": "h1"}), settle(), down("peer"), up(0, M{"n": 2}), bup(), pause(), up(1, M{"s": "after"})}},
 	}
+}
+
+// c15FaultAnchors: syncs interrupted on the receiver after the head block was stored.
+func c15FaultAnchors() []c15Scenario {
+	return []c15Scenario{
+		// the 2nd block written by the sync of an update fails on B: head stored, field block missing;
+		// A records the failed push and its retry has to deliver the commit
+		{Name: "anchor/sync-interrupted-after-head-stored", Config: "rep", BStore: "badger", Steps: []c15Step{
+			cr(0, M{"name": "j0", "n": 1}), settle(), arm("set", 2, false), up(0, M{"n": 5}), awaitfault(), disarm()}},
+		// B's store stays broken until the whole node is restarted on its file store: the half-synced
+		// state survives the restart
+		{Name: "anchor/sync-interrupted-then-node-restart", Config: "rep", BStore: "file", Steps: []c15Step{
+			cr(0, M{"name": "k0", "n": 1}), settle(), arm("set", 2, true), up(0, M{"n": 7, "s": "x"}), awaitfault(), down("node"), disarm(), bup()}},
+		// the first retry fails as well (store still broken), then the store heals; a later write
+		// concerns another document only
+		{Name: "anchor/sync-interrupted-failed-retry-then-healed", Config: "rep", BStore: "badger", Steps: []c15Step{
+			cr(0, M{"name": "l0", "k": 1}), cr(1, M{"name": "l1"}), settle(), arm("set", 2, true), up(0, M{"k": 2}), awaitfault(), waitretry(), disarm(),
+			up(1, M{"s": "other"})}},
+		// sync of a create cut short at its 3rd block, replicator and pubsub together, B's peer restarted
+		{Name: "anchor/create-sync-interrupted-then-peer-restart", Config: "both", BStore: "badger", Steps: []c15Step{
+			cr(0, M{"name": "m0"}), settle(), arm("set", 3, true), cr(1, M{"name": "m1", "n": 4, "k": 2}), awaitfault(), down("peer"), disarm(), bup()}},
+		// catch-up after an outage cut short: B missed several commits, the sync of the retried head
+		// fails at its 3rd block
+		{Name: "anchor/catch-up-sync-interrupted", Config: "rep", BStore: "badger", Steps: []c15Step{
+			cr(0, M{"name": "o0", "n": 1}), settle(), down("peer"), up(0, M{"n": 2}), up(0, M{"s": "a"}), arm("set", 3, false), bup(), awaitfault(), disarm()}},
+		// a read fault: the lookup of a linked block fails after the head was stored
+		{Name: "anchor/sync-interrupted-by-read-fault", Config: "rep", BStore: "badger", Steps: []c15Step{
+			cr(0, M{"name": "p0", "n": 1}), settle(), arm("get", 1, true), up(0, M{"n": 3, "s": "r"}), awaitfault(), disarm()}},
+	}
+}
+
+// c15GenerateFault: a random schedule (c15Generate) into which one interrupted sync is inserted —
+// around a write made while B is up, or around an `up` (the catch-up sync is the one cut short).
+func c15GenerateFault(rng *rand.Rand, idx int) c15Scenario {
+	var s c15Scenario
+	for {
+		s = c15Generate(rng, idx)
+		if s.Config != "pubsub" { // without a replicator nothing redelivers anyway (known finding)
+			break
+		}
+	}
+	s.Name = fmt.Sprintf("genfault/%d", idx)
+	mode := "peer"
+	if s.BStore == "file" {
+		mode = "node"
+	}
+	// candidates
+	type cand struct {
+		at      int
+		catchUp bool
+		doc     int
+		last    bool // no later write to the same document
+	}
+	var cands []cand
+	isDown, wroteDown := false, false
+	for i, st := range s.Steps {
+		switch st.Op {
+		case "down":
+			isDown, wroteDown = true, false
+		case "up":
+			if isDown && wroteDown {
+				cands = append(cands, cand{at: i, catchUp: true})
+			}
+			isDown = false
+		case "create", "update", "delete":
+			if isDown {
+				wroteDown = true
+				continue
+			}
+			if st.Op == "delete" {
+				continue // its sync writes the one head block only
+			}
+			last := true
+			for _, l := range s.Steps[i+1:] {
+				if (l.Op == "update" || l.Op == "delete") && l.Doc == st.Doc {
+					last = false
+				}
+			}
+			cands = append(cands, cand{at: i, doc: st.Doc, last: last})
+		}
+	}
+	if len(cands) == 0 {
+		// every write is made during an outage that ends with the schedule: add one at the end
+		s.Steps = append(s.Steps, bup(), up(0, M{"n": 4}))
+		cands = append(cands, cand{at: len(s.Steps) - 1, doc: 0, last: true})
+	}
+	// prefer the last write of a document (a later write to the same document re-walks the DAG)
+	var pref []cand
+	for _, c := range cands {
+		if c.last || c.catchUp {
+			pref = append(pref, c)
+		}
+	}
+	c := cands[rng.IntN(len(cands))]
+	if len(pref) > 0 && rng.IntN(4) != 0 {
+		c = pref[rng.IntN(len(pref))]
+	}
+	// the sync of a write stores its composite block and one block per field written
+	fault, k := "set", 2+rng.IntN(max(1, len(s.Steps[c.at].Vals)))
+	if rng.IntN(8) == 0 {
+		k = 1 // the head block itself is not stored
+	}
+	if c.catchUp {
+		k = 2 + rng.IntN(4)
+	}
+	if rng.IntN(6) == 0 {
+		fault, k = "get", 1+rng.IntN(2)
+	}
+	sticky := rng.IntN(5) < 2
+	var pre, post []c15Step
+	if !c.catchUp && rng.IntN(10) < 7 {
+		pre = append(pre, settle())
+	}
+	pre = append(pre, arm(fault, k, sticky))
+	post = append(post, awaitfault())
+	switch x := rng.IntN(10); {
+	case x < 4:
+		post = append(post, disarm())
+	case x < 6:
+		post = append(post, waitretry(), disarm())
+	case x < 9:
+		post = append(post, down(mode), disarm(), bup())
+	default:
+		post = append(post, down(mode), disarm(), waitretry(), bup())
+	}
+	dropLater := !c.catchUp && !c.last && rng.IntN(2) == 0
+	var steps []c15Step
+	steps = append(steps, s.Steps[:c.at]...)
+	steps = append(steps, pre...)
+	steps = append(steps, s.Steps[c.at])
+	steps = append(steps, post...)
+	for _, st := range s.Steps[c.at+1:] {
+		if dropLater && (st.Op == "update" || st.Op == "delete") && st.Doc == c.doc {
+			continue
+		}
+		steps = append(steps, st)
+	}
+	s.Steps = steps
+	return s
 }
 
 // c15Generate builds one random schedule.
@@ -360,13 +527,22 @@ func c15Cases(seed uint64, tier string) []core.Case {
 	for _, a := range c15Anchors() {
 		cs = append(cs, core.MkCase("anchor", 15, c15Params{Scenario: a}))
 	}
-	n := 8
+	for _, a := range c15FaultAnchors() {
+		cs = append(cs, core.MkCase("anchor", 15, c15Params{Scenario: a}))
+	}
+	n, nf := 8, 7
 	if tier == "thorough" {
-		n = 120
+		n, nf = 120, 80
 	}
 	rng := rand.New(rand.NewPCG(seed, 1515))
 	for i := 0; i < n; i++ {
 		cs = append(cs, core.MkCase("generated", rng.Uint64(), c15Params{Scenario: c15Generate(rng, i)}))
+	}
+	// schedules with an interrupted sync come from a stream of their own (the plain ones stay what
+	// they were for a given seed)
+	frng := rand.New(rand.NewPCG(seed, 1516))
+	for i := 0; i < nf; i++ {
+		cs = append(cs, core.MkCase("generated-fault", frng.Uint64(), c15Params{Scenario: c15GenerateFault(frng, i)}))
 	}
 	if d := os.Getenv("VERIF_C15_DUMP_CASES"); d != "" {
 		// development aid: one replayable file per case (`./check C15 --replay <dir>/case-N.json`)
@@ -395,8 +571,15 @@ type c15Outcome struct {
 	NodeRestarts    int
 	PeerRestarts    int
 	InactiveAtEnd   bool
-	Log             []string
-	Err             string
+	// interrupted syncs
+	FaultWindows           int              // arm steps executed
+	FaultsFired            int              // windows in which an operation was failed
+	HalfSynced             int              // windows after which B held a head of A without its complete DAG
+	HalfSyncedAfterRestart map[string]int   // mode (peer|node) -> restarts of B after which the half-synced state was still there
+	HalfHeadRepushed       int              // half-synced heads that B received again in a later push
+	Faults                 []map[string]any // per window: predicate, operations matched / failed, half-synced heads
+	Log                    []string
+	Err                    string
 }
 
 type c15Run struct {
@@ -417,6 +600,10 @@ type c15Run struct {
 	earlyDial     string
 	// no-progress bookkeeping: B's block count sampled when its receive journal had a given length
 	blocksAtRecv map[int]int
+	// fault injection on B's store (survives restarts of B)
+	mf        *core.MatchFault
+	armStep   c15Step
+	halfHeads map[string]int // head of A that B held without its complete DAG -> length of B's receive journal when observed
 }
 
 func (x *c15Run) logf(f string, a ...any) {
@@ -429,8 +616,9 @@ var c15Serial struct {
 }
 
 func runC15Schedule(ctx context.Context, sc c15Scenario, keyTag string) (out *c15Outcome) {
-	out = &c15Outcome{Scenario: sc, Detail: map[string]any{}}
-	x := &c15Run{ctx: ctx, sc: sc, docIDs: map[int]client.DocID{}, out: out, logFrom: p2p.LogLen(), aborted: map[string]int{}, blocksAtRecv: map[int]int{}}
+	out = &c15Outcome{Scenario: sc, Detail: map[string]any{}, HalfSyncedAfterRestart: map[string]int{}}
+	x := &c15Run{ctx: ctx, sc: sc, docIDs: map[int]client.DocID{}, out: out, logFrom: p2p.LogLen(), aborted: map[string]int{}, blocksAtRecv: map[int]int{},
+		mf: core.NewMatchFault(), halfHeads: map[string]int{}}
 	defer func() {
 		if p := recover(); p != nil {
 			out.Verdict, out.Err = "setup-error", fmt.Sprint(p)
@@ -452,6 +640,13 @@ func runC15Schedule(ctx context.Context, sc c15Scenario, keyTag string) (out *c1
 	c15Serial.Unlock()
 	aCfg := p2p.Cfg{Name: "A", KeySeed: []byte(keyTag + "|A"), Port: p2p.AllocPort(), Store: "badger", Retry: time.Second}
 	bCfg := p2p.Cfg{Name: "B", KeySeed: []byte(keyTag + "|B"), Port: p2p.AllocPort(), Store: sc.BStore, Retry: time.Second}
+	for _, st := range sc.Steps {
+		if st.Op == "arm" {
+			// B's database and peer (block service, bitswap) run on the fault-injecting wrapper
+			bCfg.Wrap = x.mf.Wrap
+			break
+		}
+	}
 	if sc.BStore == "file" {
 		x.dir = filepath.Join(core.WorkDir("C15-stores"), fmt.Sprintf("p%d-%d", os.Getpid(), serial))
 		_ = os.RemoveAll(x.dir)
@@ -484,10 +679,24 @@ func runC15Schedule(ctx context.Context, sc c15Scenario, keyTag string) (out *c1
 	for i, st := range sc.Steps {
 		x.step(i, st)
 	}
+	if x.mf.Armed() {
+		x.step(len(sc.Steps), disarm())
+	}
 	if x.bDown {
 		x.step(len(sc.Steps), bup())
 	}
 	x.finish()
+	// half-synced heads that were delivered to B once more (the situation in which a receiver must
+	// not conclude "head present, nothing to do")
+	recv := x.b.Journal.Pushes()
+	for h, from := range x.halfHeads {
+		for _, p := range recv[min(from, len(recv)):] {
+			if p.Cid == h {
+				out.HalfHeadRepushed++
+				break
+			}
+		}
+	}
 	return out
 }
 
@@ -579,9 +788,11 @@ func (x *c15Run) step(i int, st c15Step) {
 		if !x.bDown {
 			return
 		}
+		restartedNode := false
 		if x.b.DB == nil {
 			core.Must(x.b.OpenDB(ctx))
 			x.out.NodeRestarts++
+			restartedNode = true
 		}
 		if st.Mode == "early-dial" {
 			// A redials B continuously while B's peer is starting (what A's gRPC channel and retry
@@ -621,6 +832,16 @@ func (x *c15Run) step(i int, st c15Step) {
 		x.out.PeerRestarts++
 		x.bDown = false
 		x.logf("%d B up %s", i, x.earlyDial)
+		if len(x.halfHeads) > 0 {
+			if still := x.halfSyncedHeads(); len(still) > 0 {
+				m := "peer"
+				if restartedNode {
+					m = "node"
+				}
+				x.out.HalfSyncedAfterRestart[m]++
+				x.logf("%d half-synced state still present after the %s restart: %v", i, m, still)
+			}
+		}
 	case "patch":
 		if st.Mode == "both" || st.Mode == "A" {
 			if !x.aPatched {
@@ -649,8 +870,67 @@ func (x *c15Run) step(i int, st c15Step) {
 		x.logf("%d settle converged=%v", i, ok)
 	case "pause":
 		time.Sleep(1500 * time.Millisecond)
+	case "arm":
+		if x.sc.Config == "pubsub" || x.mf.Armed() {
+			return
+		}
+		x.armStep = st
+		x.mf.Arm(core.FaultMatch{Method: st.Fault, Store: "blocks", Scope: "direct"}, st.K, st.Sticky)
+		x.out.FaultWindows++
+		x.logf("%d arm: B's %d. direct %q on /db/blocks fails (sticky=%v)", i, st.K, st.Fault, st.Sticky)
+	case "awaitfault":
+		if !x.mf.Armed() {
+			return
+		}
+		// pacing only: until the fault has fired and no push is in flight any more — or everything
+		// has been delivered without reaching the armed operation
+		why := "timeout"
+		for t0 := time.Now(); time.Since(t0) < c15SettleMax; time.Sleep(50 * time.Millisecond) {
+			if x.bDown {
+				why = "B is down"
+				break
+			}
+			quiet := x.pushesQuiet()
+			if x.mf.Fired() > 0 && quiet {
+				why = "fault fired"
+				break
+			}
+			if x.mf.Fired() == 0 && quiet && len(x.pendingMerges()) == 0 {
+				if eq, _ := x.converged(); eq {
+					why = "delivered without reaching the armed operation"
+					break
+				}
+			}
+		}
+		x.logf("%d awaitfault: %s (failed ops so far: %d)", i, why, x.mf.Fired())
+		x.observeHalfSynced(i)
+	case "disarm":
+		if !x.mf.Armed() {
+			return
+		}
+		x.observeHalfSynced(i)
+		matched, fired := x.mf.Disarm()
+		if fired > 0 {
+			x.out.FaultsFired++
+		}
+		var hits []string
+		for _, h := range x.mf.Hits() {
+			f := ""
+			if h.Failed {
+				f = " FAILED"
+			}
+			hits = append(hits, fmt.Sprintf("%s %s%s", h.Method, short(strings.TrimPrefix(h.Key, "/db/blocks/")), f))
+		}
+		var half []string
+		for h := range x.halfHeads {
+			half = append(half, h)
+		}
+		sort.Strings(half)
+		x.out.Faults = append(x.out.Faults, map[string]any{"arm": x.armStep, "matching_ops": matched, "failed_ops": fired, "ops": hits, "half_synced_heads_so_far": half})
+		x.logf("%d disarm: %d matching operations, %d failed", i, matched, fired)
 	case "waitretry":
-		if !x.bDown || x.sc.Config == "pubsub" {
+		if (!x.bDown && !(x.mf.Armed() && x.mf.Fired() > 0)) || x.sc.Config == "pubsub" {
+			// nothing failed and B is reachable: there will be no failed retry to wait for
 			return
 		}
 		ok := false
@@ -664,6 +944,108 @@ func (x *c15Run) step(i int, st c15Step) {
 		x.logf("%d waitretry failed-retry-observed=%v", i, ok)
 	}
 	x.observeRetry()
+}
+
+// pushesQuiet: no push in flight on either side and the newest update event of every document has
+// had its push attempt (pacing aid of awaitfault, never part of a verdict).
+func (x *c15Run) pushesQuiet() bool {
+	attempted := map[string]bool{}
+	for _, p := range x.a.Journal.Pushes() {
+		if !p.Done {
+			return false
+		}
+		attempted[p.Cid] = true
+	}
+	for _, p := range x.b.Journal.Pushes() {
+		if !p.Done {
+			return false
+		}
+	}
+	lastCid := map[string]string{}
+	for _, e := range x.a.Events() {
+		if e.Name == "update" && !e.Retry && e.DocID != "" {
+			lastCid[e.DocID] = e.Cid
+		}
+	}
+	for _, c := range lastCid {
+		if !attempted[c] {
+			return false
+		}
+	}
+	return true
+}
+
+// halfSyncedHeads lists the composite heads of A whose block B holds while B lacks at least one
+// block of the head's closure (observed on the raw stores, below the fault wrapper).
+func (x *c15Run) halfSyncedHeads() []string {
+	if x.b.Store == nil || x.a.Store == nil {
+		return nil
+	}
+	ctx := x.ctx
+	abs, bbs := datastore.BlockstoreFrom(x.a.Store), datastore.BlockstoreFrom(x.b.Store)
+	var out []string
+	for _, id := range x.docIDs {
+		for _, h := range c15Heads(ctx, x.a, id.String()) {
+			hc, err := cid.Decode(h)
+			if err != nil {
+				continue
+			}
+			if has, err := bbs.Has(ctx, hc); err != nil || !has {
+				continue
+			}
+			// walk the closure on A
+			seen := map[cid.Cid]bool{hc: true}
+			todo := []cid.Cid{hc}
+			missing := false
+			for len(todo) > 0 && !missing {
+				c := todo[0]
+				todo = todo[1:]
+				raw, err := abs.Get(ctx, c)
+				if err != nil {
+					continue
+				}
+				blk, err := coreblock.GetFromBytes(raw.RawData())
+				if err != nil {
+					continue
+				}
+				for _, l := range blk.AllLinks() {
+					if seen[l.Cid] {
+						continue
+					}
+					seen[l.Cid] = true
+					if has, err := bbs.Has(ctx, l.Cid); err == nil && !has {
+						missing = true
+						break
+					}
+					todo = append(todo, l.Cid)
+				}
+			}
+			if missing {
+				out = append(out, h)
+			}
+		}
+	}
+	sort.Strings(out)
+	return out
+}
+
+// observeHalfSynced records the half-synced heads B holds now (once per window for the counter).
+func (x *c15Run) observeHalfSynced(i int) {
+	if x.b.Store == nil {
+		return
+	}
+	hs := x.halfSyncedHeads()
+	fresh := 0
+	for _, h := range hs {
+		if _, ok := x.halfHeads[h]; !ok {
+			x.halfHeads[h] = len(x.b.Journal.Pushes())
+			fresh++
+		}
+	}
+	if fresh > 0 {
+		x.out.HalfSynced++
+		x.logf("%d B holds %d head(s) of A without the complete DAG: %v", i, len(hs), hs)
+	}
 }
 
 func c15Heads(ctx context.Context, n *p2p.Node, docID string) []string {
@@ -1134,7 +1516,18 @@ func runC15(ctx context.Context, c core.Case, r *core.Rec) {
 	if fo.RetryAfterSkew {
 		r.Count("retry_after_unapplied_patch", 1)
 	}
-	if fo.WritesDuringOut > 0 && (fo.RetrySeen || sc.Config == "pubsub") {
+	r.Count("sync_fault_windows", int64(fo.FaultWindows))
+	r.Count("sync_faults_fired", int64(fo.FaultsFired))
+	r.Count("sync_interrupted_after_head_stored", int64(fo.HalfSynced))
+	r.Count("half_synced_head_pushed_again", int64(fo.HalfHeadRepushed))
+	r.Count("half_synced_state_survived_peer_restart", int64(fo.HalfSyncedAfterRestart["peer"]))
+	if sc.BStore == "file" {
+		r.Count("half_synced_state_survived_node_restart", int64(fo.HalfSyncedAfterRestart["node"]))
+	}
+	if fo.FaultWindows > 0 && fo.FaultsFired == 0 {
+		r.Note("armed_operation_not_reached")
+	}
+	if (fo.WritesDuringOut > 0 && (fo.RetrySeen || sc.Config == "pubsub")) || (fo.HalfSynced > 0 && fo.RetrySeen) {
 		r.Nontrivial(sc.canon())
 	}
 	detail := func() map[string]any {
@@ -1219,10 +1612,10 @@ func runC15(ctx context.Context, c core.Case, r *core.Rec) {
 	case "undelivered-quiescent":
 		r.Count("scenarios_decided", 1)
 		r.Violate("undelivered/"+sc.Config+"/"+fo.Cause,
-			fmt.Sprintf("schedule %q: B lacks commits of A although B is reachable and nothing remains that could deliver them (%s); the control without the outage converged", sc.Name, fo.Cause), detail())
+			fmt.Sprintf("schedule %q: B lacks commits of A although B is reachable and nothing remains that could deliver them (%s); the control without the outage / without the storage fault on B converged", sc.Name, fo.Cause), detail())
 	}
 	r.Sample(map[string]any{"scenario": sc.Name, "config": sc.Config, "steps": len(sc.Steps), "verdict": fo.Verdict, "control": co.Verdict,
-		"writes_during_outage": fo.WritesDuringOut, "retry_seen": fo.RetrySeen})
+		"writes_during_outage": fo.WritesDuringOut, "retry_seen": fo.RetrySeen, "syncs_interrupted_after_head_stored": fo.HalfSynced})
 }
 
 func init() {
@@ -1230,17 +1623,21 @@ func init() {
 		ID:    "C15",
 		Level: "exploration",
 		Rule: "one case = one schedule of writes on A (create/update/delete, 1-3 documents) interleaved with B-down/B-up (peer closed | node closed and reopened on a file store), " +
-			"an add-field patch (both | A only | B later) and waits, run next to its control (same schedule without the outage) on real loopback libp2p nodes; " +
-			"distinct = canonical schedule; non-trivial = at least one write while B was down and a retry record observed in A's peer store (pubsub-only: a write while B was down)",
-		Cases:       c15Cases,
-		Run:         runC15,
-		Floors:      []string{"scenarios_decided", "controls_converged", "writes_during_outage", "scenarios_with_retry_record", "retry_after_unapplied_patch", "b_restarted_on_file_store", "scenarios_with_failed_retry", "no_scenario_left_undecided"},
+			"an add-field patch (both | A only | B later), waits, and interrupted syncs (B's k-th direct block write / read of a window fails: head block stored, linked blocks missing; " +
+			"followed by nothing | a failed retry | a restart of B's peer or node), run next to its control (same schedule without the outage and without the fault) on real loopback libp2p nodes; " +
+			"distinct = canonical schedule; non-trivial = a retry record observed in A's peer store and (a write while B was down, or B observed holding a head of A without its complete DAG) (pubsub-only: a write while B was down)",
+		Cases: c15Cases,
+		Run:   runC15,
+		Floors: []string{"scenarios_decided", "controls_converged", "writes_during_outage", "scenarios_with_retry_record", "retry_after_unapplied_patch", "b_restarted_on_file_store", "scenarios_with_failed_retry", "no_scenario_left_undecided",
+			"sync_interrupted_after_head_stored", "half_synced_head_pushed_again", "half_synced_state_survived_node_restart"},
 		CaseTimeout: 420 * time.Second,
 		Assumptions: []string{
 			"unbounded 'eventually' restated as: converged, or (B lacks a commit of A and nothing is pending anywhere: no retry record / retry-doc marker for B in A's peer store, no push in flight, the newest update event of every document has had its push attempt, no merge in flight on B) observed unchanged on 14 successive observations; work still pending at D=90s is inconclusive (after one re-execution on fresh nodes), never a violation",
 			"two further clock-free criteria count repetitions, not time: (a) no-progress livelock = the last 6 pushes received by B carried the same head of A, failed inside B with the same error class, and B's block store did not change; (b) stuck retry record = record in state 'retrying' with no push in flight and no new push on 48 successive observations (only the retry goroutine, which is always inside a journalled push, could ever advance it)",
 			"retry interval configured to 1s (retry loop period is the 2s constant of net/p2p_replicator.go)",
-			"loss is attributed to outage handling only when the control (same writes and patches, no outage) converges",
+			"loss is attributed to outage handling only when the control (same writes and patches, no outage, no storage fault) converges",
+			"an interrupted sync is produced by failing direct (non-transactional) operations on /db/blocks of B (the receiver's syncDAG and block service; merges run in transactions and are never failed); the window is always closed before the verdict, so the retry runs against a healthy store",
+			"'B holds a head of A without its complete DAG' is observed on the raw stores (head block present on B, some block of its closure on A absent on B), not inferred from the injected fault",
 			"pushes are observed through gRPC interceptors installed via net/config Options (no repository change); receiver merge failures through the process' error log",
 			"libp2p over 127.0.0.1, signing off, no ACP",
 			"A itself is never restarted (the property quantifies over outages of B)",
